@@ -148,7 +148,7 @@ func (s *RSchema) doCompile() error {
 		return s.newJSchemaError(errs.ErrRegexUnexpectedStart, 0, content.Byte(0))
 	}
 
-	var escaped bool
+	var escaped, closed bool
 
 loop:
 	for i, c := range content.SubLow(1).Data() {
@@ -159,6 +159,7 @@ loop:
 		case '/':
 			if !escaped {
 				s.pattern = content.Sub(1, i+1).String()
+				closed = true
 				break loop
 			}
 			escaped = false
@@ -168,7 +169,7 @@ loop:
 		}
 	}
 
-	if s.pattern == "" {
+	if !closed {
 		idx := uint(content.Len() - 1)
 		return s.newJSchemaError(errs.ErrRegexUnexpectedEnd, idx, content.Byte(idx))
 	}
